@@ -70,7 +70,7 @@ def parseCmd (j : Json) : Except String Cmd := do
   | "subclass" => return .subclass (← nfld j "p")
   | "mi" => return .subclassMI (← (← afld j "mro").mapM nat)
   | "using_props" => return .usingProps (← nfld j "p") (← parsePairs j "init")
-  | "using_shared" => return .usingShared (← nfld j "p") (← nfld j "owner")
+  | "using_shared" => return .usingShared (← nfld j "p") (← nfld j "owner") (← parsePairs j "init")
   | "with_props" => return .withProps (← nfld j "p") (← parsePairs j "pairs")
   | "new" => return .newInst (← nfld j "c")
   | "new_with" => return .newInstWith (← nfld j "c") (← parsePairs j "m")
@@ -125,7 +125,7 @@ def cmdKeys : Cmd → List Key
     | .setitem k _ | .pop k _ | .setdefault k _ | .get k _ => [k]
     | .update ps | .eq ps | .ne ps => ps.map (·.1)
     | _ => []
-  | .usingProps _ ps | .withProps _ ps | .newInstWith _ ps | .assign _ ps
+  | .usingProps _ ps | .usingShared _ _ ps | .withProps _ ps | .newInstWith _ ps | .assign _ ps
   | .newInstCompound _ ps => ps.map (·.1)
   | _ => []
 
